@@ -46,7 +46,7 @@ def handle : Handler := fun op inp impl =>
   if !(isNull (field impl "panic")) then
     { agree := false, holds := false, why := "panic: " ++ str (field impl "panic") } else
   match op with
-  | "lib" =>
+  | "lib" | "corpus" =>
     let suites := (arr (field inp "suites")).map suiteOf
     let codes := sortedDistinct (natList (field inp "cases"))
     let cases := codes.map Case.ofCode
@@ -77,7 +77,10 @@ def handle : Handler := fun op inp impl =>
           sortStrings ((allPermutations cl sv lib).map (·.fullName))
     -- the property, on the implementation's output
     let wf := decide (WellFormed pathJoin suites cases mode)
-    let spec := if wf then sortStrings ((specList pathJoin suites cases mode).map permLine) else []
+    let specPerms := if wf then specList pathJoin suites cases mode else []
+    let spec := sortStrings (specPerms.map permLine)
+    let specAll := [(false, true), (true, false), (true, true)].map fun (cl, sv) =>
+      sortStrings (specAllNames cl sv specPerms)
     let implKeyed : List (String × ServerKey) := implPermsJ.map fun j =>
       (str (field j "name"),
         ⟨Proto.ofNum (nat (field j "p")), Ver.ofNum (nat (field j "v")), bool (field j "cert"), bool (field j "creds")⟩)
@@ -91,6 +94,7 @@ def handle : Handler := fun op inp impl =>
         (false, s!"wrong-permutations: returned {implPerms.length}, specified {spec.length}; missing {(spec.filter (!implPerms.contains ·)).take 3}, extra {(implPerms.filter (!spec.contains ·)).take 3}")
       else if !keysConsistent then (false, "map-key: a test case is stored under a key different from its name")
       else if !grouped then (false, "grouping: a permutation is not in exactly one server-instance bucket with its own key")
+      else if implAll != specAll then (false, "grpc-peers: allPermutations does not return the library plus the marked applicable permutations")
       else (true, "")
     { agree := agree, holds := holds, nontrivial := wf && !spec.isEmpty,
       model := match m with
